@@ -36,7 +36,7 @@ def _param(x):
 
 class Model:
   def __init__(self):
-    self.owner = False
+    self.owners = set()
     self.studies = {}   # short name -> {'display','state','md':{(ns,key):entry},'alg', 'trials':{id:int -> trial dict}}
     self.nops = {}      # (study, client) -> number of suggestion operations created so far
 
@@ -111,8 +111,8 @@ class Model:
     self._ok(cls, 'CreateStudy')
     sp = copy.deepcopy(svc.spec(a[2] if len(a) > 2 else 'SCRIPTED'))
     del sp.metadata[:]
-    self.owner = True
-    self.studies[s] = {'display': s, 'state': 'STATE_UNSPECIFIED', 'md': {}, 'trials': {},
+    self.owners.add(svc.owner_of(s))
+    self.studies[s] = {'display': svc.study_id(s), 'state': 'STATE_UNSPECIFIED', 'md': {}, 'trials': {},
                        'spec': sp.SerializeToString(deterministic=True)}
     want = self._study_view(s)
     # A fresh study is "treated as ACTIVE": either enum value is acceptable in the response/store.
@@ -134,13 +134,14 @@ class Model:
     self._need(resp == self._study_view(a[1]), 'response', 'GetStudy differs from stored study')
 
   def _ListStudies(self, a, cls, resp, _):
-    if not self.owner:
+    ow = a[1].split('/', 1)[1] if len(a) > 1 else 'o'
+    if ow not in self.owners:
       self._need(cls in ('NOT_FOUND', 'OK'), 'error-class', 'ListStudies(unknown owner): got %s' % cls)
       if cls == 'OK':
         self._need(resp == ('Studies', ()), 'response', 'ListStudies of an unknown owner must be empty')
       return
     self._ok(cls, 'ListStudies')
-    want = sorted((self._study_view(s)[1] for s in self.studies), key=repr)
+    want = sorted((self._study_view(s)[1] for s in self.studies if svc.owner_of(s) == ow), key=repr)
     self._need(sorted(resp[1], key=repr) == want, 'response', 'ListStudies differs from stored studies')
 
   def _DeleteStudy(self, a, cls, resp, _):
@@ -407,7 +408,7 @@ class Model:
     self._need(done, 'suggest-op-done', 'SuggestTrials returned an operation that is not done')
     num = self.nops.get((s, c), 0) + 1
     self.nops[(s, c)] = num
-    want_name = svc.resources.SuggestionOperationResource('o', s, c, num).name
+    want_name = svc.resources.SuggestionOperationResource(svc.owner_of(s), svc.study_id(s), c, num).name
     self._need(opname == want_name, 'suggest-op-number', 'operation %s, expected %s' % (opname, want_name))
     if fails:
       self._need(has_err, 'suggest-failure-reported', 'algorithm failure must yield an operation with error')
